@@ -570,6 +570,38 @@ impl World {
         Ok(w)
     }
 
+    /// instantiate one more vAMM (own decimals) in the same app, opened, not registered
+    pub fn instantiate_vamm(&mut self, decimals: u8) -> Addr {
+        let d = pow10(decimals);
+        let id = self.app.store_code(c_vamm());
+        let v = self
+            .app
+            .instantiate_contract(
+                id,
+                addr(OWNER),
+                &VammInit {
+                    decimals,
+                    quote_asset: "ETH".into(),
+                    base_asset: "USD".into(),
+                    quote_asset_reserve: Uint128::new(1_000 * d),
+                    base_asset_reserve: Uint128::new(100 * d),
+                    funding_period: 86_400,
+                    toll_ratio: Uint128::zero(),
+                    spread_ratio: Uint128::zero(),
+                    fluctuation_limit_ratio: Uint128::zero(),
+                    pricefeed: self.feed.to_string(),
+                    margin_engine: Some(self.engine.to_string()),
+                    insurance_fund: Some(self.ins.to_string()),
+                },
+                &[],
+                "vamm-extra",
+                None,
+            )
+            .expect("extra vamm");
+        self.app.execute_contract(addr(OWNER), v.clone(), &VammExec::SetOpen { open: true }, &[]).expect("open extra vamm");
+        v
+    }
+
     // ------------------------------------------------------------------ transactions
     pub fn exec<T: Serialize + std::fmt::Debug>(&mut self, who: &str, to: &Addr, msg: &T, funds: &[Coin]) -> Tx {
         tx_begin();
